@@ -216,6 +216,65 @@ fn engine_huge(terms: &[Term], checks: u32, tier: Tier, kernels: &[&str]) -> Vec
     out
 }
 
+/// 64 KiB items (tok::Big): byte-size thresholds (chunk buffers, per-worker vectors, "large item" paths) are
+/// reached with few elements: a chunk of 1 100 items is 70 MiB, a worker vector of 300 survivors 19 MiB
+fn engine_bigitem(terms: &[Term], checks: u32, tier: Tier, kernels: &[&str]) -> Vec<Item> {
+    let th = tier == Tier::Thorough;
+    let mut out = Vec::new();
+    for ch in kernels {
+        let cid = chains::CHAINS.iter().position(|c| c == ch).unwrap();
+        for t in terms {
+            for (src, known) in [(Src::SBigVec, true), (Src::SBigIter, false)] {
+                if !src.supports(cid) {
+                    continue;
+                }
+                let mut cfgs = vec![(40usize, 2usize, CsSet::N(1)), (600, 2, CsSet::Keep), (600, 3, CsSet::N(64)), (2400, 2, CsSet::Exact(1100))];
+                if th {
+                    cfgs.push((4500, 3, CsSet::Exact(2100)));
+                }
+                for (n, w, cs) in cfgs {
+                    let mut c = par(case(src, 0, ch, *t), w, cs);
+                    c.input = (0..n).map(|i| i as u8).collect();
+                    c.known = known;
+                    c.pred_pos = [(n - 3) as u32, u32::MAX];
+                    for mc in mask_variants(&c, false) {
+                        out.push(item(mc.clone(), Plan::base_rr().with_horizon(200_000), checks));
+                        if n == 40 {
+                            out.push(item(mc, Plan::db(1), checks));
+                        }
+                    }
+                }
+            }
+        }
+    }
+    out
+}
+
+/// the computation is built and run inside a closure of another parallel computation (on a worker thread of it)
+fn engine_nested(terms: &[Term], checks: u32, tier: Tier) -> Vec<Item> {
+    let th = tier == Tier::Thorough;
+    let mut out = Vec::new();
+    for (src, cid) in all_units() {
+        if is_lite(cid) && !th {
+            continue;
+        }
+        for t in terms {
+            if !term_ok(src, cid, *t) {
+                continue;
+            }
+            for (nt, cs) in [(NtSet::Keep, CsSet::Keep), (NtSet::Max(2), CsSet::N(1)), (NtSet::N(1), CsSet::Keep)] {
+                let mut c = case(src, 3, chains::CHAINS[cid], *t);
+                c.nt[0] = nt;
+                c.cs[0] = cs;
+                c.nested = true;
+                c.pmask = 0b0100;
+                out.push(item(c, Plan::base_rr(), checks));
+            }
+        }
+    }
+    out
+}
+
 /// many workers and a slow spawner: workers are spawned after the first lag period, `Min` chunk sizes grow
 /// (the spawner's view of the remaining length depends on how far the first workers got)
 fn engine_lag(terms: &[Term], checks: u32, tier: Tier, kernels: &[&str]) -> Vec<Item> {
@@ -590,6 +649,8 @@ pub fn items(prop: &str, tier: Tier) -> Vec<Item> {
             out.extend(expansion_sweep(&[Term::CollectVec], CK_RESULT, tier, false));
             out.extend(engine_big(&[Term::CollectVec, Term::Collect], CK_RESULT, tier, &KC4));
             out.extend(engine_huge(&[Term::CollectVec, Term::Collect], CK_RESULT, tier, &KC4));
+            out.extend(engine_bigitem(&[Term::CollectVec, Term::Collect, Term::IntoVec], CK_RESULT, tier, &["", "M", "F", "X", "O"]));
+            out.extend(engine_nested(&[Term::CollectVec, Term::Collect], CK_RESULT, tier));
             out.extend(engine_fine(&[Term::CollectVec, Term::Collect], CK_RESULT, tier, &KC4));
             out.extend(engine_e(&[Term::CollectVec, Term::Collect, Term::IntoVec], CK_RESULT, tier, &[], &[]));
         }
@@ -646,6 +707,7 @@ pub fn items(prop: &str, tier: Tier) -> Vec<Item> {
             out.extend(expansion_sweep(&[Term::First, Term::Find, Term::Any], CK_RESULT, tier, false));
             out.extend(engine_big(&[Term::Find, Term::FindIdx], CK_RESULT, tier, &["", "M", "MF", "OF", "XF"]));
             out.extend(engine_huge(&[Term::Find, Term::FindIdx, Term::All], CK_RESULT, tier, &["", "MF", "OF", "XF"]));
+            out.extend(engine_bigitem(&[Term::Find, Term::First], CK_RESULT, tier, &["", "M", "F", "X", "O"]));
             out.extend(engine_fine(&[Term::Find, Term::First, Term::Any, Term::FindIdx], CK_RESULT, tier, &["", "M", "MF", "OF", "XF"]));
             // chunks of thousands of elements, sparse matches given by position, a preemption right after a pull:
             // closure entries are scheduling points only for the first two calls of each thread
@@ -759,7 +821,7 @@ pub fn items(prop: &str, tier: Tier) -> Vec<Item> {
                     if !src.supports(cid) {
                         continue;
                     }
-                    for t in [Term::Fold, Term::Sum, Term::Min, Term::Max, Term::MinBy, Term::MaxBy, Term::MinByKey, Term::MaxByKey] {
+                    for t in [Term::Fold, Term::Sum, Term::Min, Term::Max, Term::MinBy, Term::MaxBy, Term::MinByKey, Term::MaxByKey, Term::MinTie, Term::MaxTie] {
                         for n in [0usize, 1, 4] {
                             for (w, cs) in [(2, CsSet::N(1)), (3, CsSet::N(2)), (1, CsSet::Keep)] {
                                 let c = par(case(src, n, chains::CHAINS[cid], t), w, cs);
@@ -776,6 +838,7 @@ pub fn items(prop: &str, tier: Tier) -> Vec<Item> {
             out.extend(expansion_sweep(&[Term::Reduce], CK_RESULT, tier, false));
             out.extend(engine_big(&[Term::Reduce], CK_RESULT, tier, &["", "M", "MF", "OF", "XF"]));
             out.extend(engine_huge(&[Term::Reduce], CK_RESULT, tier, &["", "MF", "OF", "XF"]));
+            out.extend(engine_bigitem(&[Term::Reduce], CK_RESULT, tier, &["", "M", "F", "X", "O"]));
             out.extend(engine_fine(&[Term::Reduce], CK_RESULT, tier, &["", "M", "MF", "OF", "XF"]));
             out.extend(engine_e(&[Term::Reduce], CK_RESULT, tier, &[], &[0, 1, 2, 3]));
         }
@@ -787,6 +850,7 @@ pub fn items(prop: &str, tier: Tier) -> Vec<Item> {
             out.extend(expansion_sweep(&[Term::Count, Term::ForEach], CK_RESULT, tier, false));
             out.extend(engine_big(&[Term::Count], CK_RESULT, tier, &["", "M", "MF", "OF", "XF"]));
             out.extend(engine_huge(&[Term::Count, Term::ForEach], CK_RESULT, tier, &["M", "MF", "OF", "XF"]));
+            out.extend(engine_bigitem(&[Term::Count, Term::ForEach], CK_RESULT, tier, &["M", "F", "X", "O"]));
             out.extend(engine_fine(&[Term::Count, Term::ForEach], CK_RESULT, tier, &["", "M", "MF", "OF", "XF"]));
             out.extend(engine_e(&[Term::Count, Term::ForEach], CK_RESULT, tier, &[], &[]));
         }
@@ -799,6 +863,7 @@ pub fn items(prop: &str, tier: Tier) -> Vec<Item> {
             out.extend(engine_s(&[Term::Find, Term::Any], ck, tier, &["", "M", "MF", "OF", "XF"], false));
             out.extend(engine_lag(&[Term::CollectVec, Term::Count, Term::Reduce], ck, tier, &["M", "MF", "OF", "XF"]));
             out.extend(engine_huge(&[Term::CollectVec, Term::Count, Term::CollectX], ck, tier, &["M", "MF", "XF"]));
+            out.extend(engine_bigitem(&[Term::CollectVec, Term::Reduce], ck, tier, &["M", "F", "X", "O"]));
             out.extend(engine_fine(&[Term::CollectVec, Term::Count, Term::Reduce, Term::CollectX, Term::Find], ck, tier, &["M", "MF", "OF", "XF"]));
             out.extend(engine_e(&[Term::CollectVec, Term::Count, Term::Reduce, Term::CollectX, Term::Find], ck, tier, &[0b0100, 0], &[0]));
             // exclusivity: scheduling points *inside* the source iterator's next()
@@ -939,6 +1004,7 @@ pub fn items(prop: &str, tier: Tier) -> Vec<Item> {
             out.extend(expansion_sweep(&[Term::CollectX], CK_RESULT, tier, false));
             out.extend(engine_big(&[Term::CollectX], CK_RESULT, tier, &["M", "MF", "OF", "XF"]));
             out.extend(engine_huge(&[Term::CollectX], CK_RESULT, tier, &["M", "MF", "OF", "XF"]));
+            out.extend(engine_bigitem(&[Term::CollectX], CK_RESULT, tier, &["M", "F", "X", "O"]));
             out.extend(engine_fine(&[Term::CollectX], CK_RESULT, tier, &KC));
             out.extend(engine_e(&[Term::CollectX], CK_RESULT, tier, &[], &[]));
         }
@@ -1057,7 +1123,7 @@ pub fn items(prop: &str, tier: Tier) -> Vec<Item> {
             out.extend(expansion_sweep(&[Term::CollectVec, Term::First, Term::Find, Term::Count, Term::Reduce, Term::CollectX], ck, tier, true));
             let terms = [
                 Term::CollectVec, Term::Collect, Term::CollectX, Term::IntoVec, Term::IntoSplitD, Term::IntoSplitL, Term::IntoFixed, Term::Count, Term::ForEach, Term::Reduce, Term::Find,
-                Term::First, Term::Any, Term::All, Term::FindIdx, Term::FirstIdx, Term::Fold, Term::Sum, Term::Min, Term::Max, Term::MinBy, Term::MaxBy, Term::MinByKey, Term::MaxByKey,
+                Term::First, Term::Any, Term::All, Term::FindIdx, Term::FirstIdx, Term::Fold, Term::Sum, Term::Min, Term::Max, Term::MinBy, Term::MaxBy, Term::MinByKey, Term::MaxByKey, Term::MinTie, Term::MaxTie,
             ];
             for (src, cid) in all_units() {
                 let full_src = matches!(src, Src::SVec | Src::SIter | Src::PVec | Src::PIter);
@@ -1257,6 +1323,7 @@ pub fn items(prop: &str, tier: Tier) -> Vec<Item> {
         // Exact(c)
         "C11" => {
             let ck = CK_EXACT | CK_RESULT;
+            out.extend(engine_bigitem(&[Term::CollectVec, Term::Reduce, Term::Find, Term::Count, Term::CollectX], ck, tier, &["", "M", "F", "X", "O"]));
             // many workers: workers are spawned after the first lag period
             let progs: [(&str, Term); 5] = [("M", Term::CollectVec), ("MF", Term::CollectVec), ("M", Term::Reduce), ("MF", Term::Count), ("XF", Term::CollectX)];
             for (ch, t) in progs {
@@ -1437,6 +1504,26 @@ pub fn items(prop: &str, tier: Tier) -> Vec<Item> {
                     }
                 }
             }
+            // the same walk on a worker thread of another parallel computation (the calling context of the constructors)
+            for (src, cid) in all_units() {
+                let np = chains::CHAINS[cid].len() + 1;
+                for p in 0..=np {
+                    for a in nts2 {
+                        for b in css2 {
+                            if p == np && !(a == NtSet::Keep && b == CsSet::Keep) {
+                                continue;
+                            }
+                            let mut c = case(src, 2, chains::CHAINS[cid], Term::Build);
+                            if p < np {
+                                c.nt[p] = a;
+                                c.cs[p] = b;
+                            }
+                            c.nested = true;
+                            out.push(item(c, Plan::base_np(), ck));
+                        }
+                    }
+                }
+            }
         }
         // drops exactly once
         "C13" => {
@@ -1491,6 +1578,7 @@ pub fn items(prop: &str, tier: Tier) -> Vec<Item> {
             out.extend(engine_lag(&[Term::CollectVec, Term::CollectX, Term::Find], ck, tier, &["M", "MF", "XF"]));
             out.extend(engine_big(&[Term::CollectVec, Term::Collect, Term::Find], ck, tier, &["MF", "XF"]));
             out.extend(engine_huge(&[Term::CollectVec, Term::Collect, Term::CollectX, Term::IntoSplitD, Term::Reduce, Term::Find], ck, tier, &["M", "MF", "OF", "XF"]));
+            out.extend(engine_bigitem(&[Term::CollectVec, Term::Collect, Term::CollectX, Term::IntoVec, Term::Reduce, Term::Find], ck, tier, &["", "M", "F", "X", "O"]));
             out.extend(engine_fine(&[Term::CollectVec, Term::CollectX, Term::Find, Term::Reduce], ck, tier, &["M", "MF", "OF", "XF"]));
             // eager (materialising) chains and deeper chains, sequential and parallel
             for cid in 0..chains::N_CHAINS {
@@ -1611,6 +1699,62 @@ pub fn items(prop: &str, tier: Tier) -> Vec<Item> {
                     }
                 }
             }
+            // unbounded sources: the call must panic although the other workers could pull for ever
+            for src in [Src::SIter, Src::PIter] {
+                for ch in ["", "M", "MF", "OF", "XF"] {
+                    for t in [Term::Find, Term::Any, Term::All, Term::First] {
+                        for (w, cs) in [(2usize, CsSet::N(1)), (2, CsSet::N(2)), (3, CsSet::N(1))] {
+                            let mut c = par(case(src, 0, ch, t), w, cs);
+                            c.known = false;
+                            c.endless = true;
+                            let mut variants = Vec::new();
+                            if t.uses_pred() {
+                                // nothing matches, the predicate panics on the element at position 3
+                                let mut a = c.clone();
+                                a.pmask = if t == Term::All { u64::MAX } else { 0 };
+                                a.fault = Some((ST_PRED, a.id_at_pred(3)));
+                                variants.push(a);
+                            }
+                            if !ch.is_empty() {
+                                // the first closure panics on the element at position 2; the only match is far behind it
+                                let mut b = c.clone();
+                                b.pmask = if t == Term::All { !(1u64 << 40) } else { 1 << 40 };
+                                if let Some(i) = filters_in(ch).first() {
+                                    b.fmask[*i] = 1 << 40;
+                                }
+                                b.fault = Some((0, 3));
+                                variants.push(b);
+                            }
+                            for v in variants {
+                                out.push(item(v.clone(), fair(Plan::pb(1), w), ck));
+                                out.push(item(v, fair(Plan::db(1), w), ck));
+                            }
+                        }
+                    }
+                }
+            }
+            // long chunks: a fault in the middle and at the end of a chunk of 1024 / 2048 elements
+            for (src, known) in [(Src::SVec, true), (Src::SIter, false)] {
+                for (ch, t) in &progs {
+                    if !th && matches!(t, Term::IntoSplitD | Term::IntoFixed | Term::ForEach) {
+                        continue;
+                    }
+                    for cs in [CsSet::N(1024), CsSet::N(2048), CsSet::Keep] {
+                        for fpos in [1500usize, 4999] {
+                            if !th && cs == CsSet::N(2048) && fpos == 4999 {
+                                continue;
+                            }
+                            let mut c = par(case(src, 0, ch, *t), 2, cs);
+                            c.input = (0..5000usize).map(|i| i as u8).collect();
+                            c.known = known;
+                            c.prefix = if t.is_collect_into() { 1 } else { 0 };
+                            c.pmask = 0;
+                            c.fault = Some((0, fpos as u64 + 1));
+                            out.push(item(c, Plan::base_rr().with_horizon(200_000), ck));
+                        }
+                    }
+                }
+            }
             // sequential mode: the panic propagates as well
             for (ch, t) in &progs {
                 let mut c = case(Src::SVec, 3, ch, *t);
@@ -1719,6 +1863,21 @@ pub fn items(prop: &str, tier: Tier) -> Vec<Item> {
                                 out.push(item(c.clone(), Plan::base_np(), ck));
                             }
                         }
+                    }
+                }
+            }
+            // built (and run) on a worker thread of another parallel computation
+            for (src, cid) in all_units() {
+                for t in [Term::Build, Term::Count] {
+                    if !term_ok(src, cid, t) {
+                        continue;
+                    }
+                    for (nt, cs) in [(NtSet::Keep, CsSet::Keep), (NtSet::Max(2), CsSet::N(1)), (NtSet::N(1), CsSet::Keep)] {
+                        let mut c = case(src, 3, chains::CHAINS[cid], t);
+                        c.nt[0] = nt;
+                        c.cs[0] = cs;
+                        c.nested = true;
+                        out.push(item(c, Plan::base_np(), ck));
                     }
                 }
             }
